@@ -171,11 +171,14 @@ pub fn check_case(table: &Table, mapfile: &str, case: &Case, pool: (usize, usize
     // a jump with an explicit time (`goto L @ t`, t != time of L) leaves the clock off the label clock; compiler-generated
     // jumps (ternaries, blocks) then carry *label* times in their `t` argument while AstVm executes no jump there: the same
     // AstVm artefact as in C07, so for such bodies calls and registers are compared, clocks are not
-    let time_observable = table.cfg.jump_order != JumpOrder::O && !case.body.contains('@');
+    // (M1 marks the point from which its clock and AstVm's follow different rules; see Trace::clock_unreliable_from)
+    let time_observable = table.cfg.jump_order != JumpOrder::O;
     for (vi, d, src, rz) in runs {
         res.executions += 1;
         if let Some(s) = &src.stopped { if s.starts_with("vm-panic") { res.discards.push(format!("source-undefined:{s}")); continue; } }
         let m1 = run_m1(table, &instrs, &vals[vi], d, 4);
+        // the raised form is the same instruction stream: AstVm executing it is subject to the same clock caveat
+        let clock_mark = m1.as_ref().ok().and_then(|t| t.clock_unreliable_from);
         res.traces += 1;
         match m1 {
             Err(e) if e.starts_with("UNDEFINED") && src.stopped.is_some() => { res.discards.push("both-undefined".into()); },
@@ -198,7 +201,8 @@ pub fn check_case(table: &Table, mapfile: &str, case: &Case, pool: (usize, usize
                 }
             }
         }
-        if let Some(rz) = rz {
+        if let Some(mut rz) = rz {
+            rz.clock_unreliable_from = clock_mark;
             res.traces += 1;
             if let Some(s) = &rz.stopped { if s.contains("not implemented") { res.discards.push("raised-form-not-executable-by-AstVm".into()); continue; } }
             if let Some(s) = &rz.stopped { if s.starts_with("vm-panic") {
